@@ -426,6 +426,11 @@ func Discharge(obls []*Obligation, dir string, timeout int, thorough bool, jobs 
 				if (s == "z3-new" || s == "cvc5") && !thorough && timeout >= 4 {
 					to = timeout / 2
 				}
+				if thorough && r.Status == "discharged" && to > 20 {
+					// second opinions on an obligation that is already discharged: a definite answer that
+					// disagrees would count, but they are not given the full thorough timeout
+					to = 20
+				}
 				sr := runSolver(s, file, to)
 				r.Attempts = append(r.Attempts, sr)
 				if sr.Result == "unsat" {
